@@ -107,6 +107,16 @@ impl Cells {
     }
 }
 
+/// The scheduler has a fixed number of thread slots (they are not reused):
+/// the body, one per broadcast issued from another caller thread, and the
+/// pool's workers. A case that needs more cannot be run faithfully (a spawn
+/// would fail for lack of a slot, which is the harness's limit, not divan's).
+pub fn exceeds_thread_capacity(c: &PoolCase) -> bool {
+    let callers = c.history.iter().filter(|b| b.other_caller).count();
+    let workers = c.history.iter().map(|b| b.n as usize).max().unwrap_or(0);
+    1 + callers + workers > divan::__verif::sched::MAX_THREADS
+}
+
 pub fn run_pool(c: &PoolCase) -> PoolOutcome {
     sched::set_internal_hooks(Some((enter, exit)));
     let events: Mutex<Vec<PEv>> = Mutex::new(Vec::with_capacity(256));
